@@ -7,6 +7,19 @@ CHECKS = {
  "C01": dict(engine="E3", technique="bounded-exhaustive enumeration of workspace layouts x registration orders x cursor columns on the real resolver, against a reference model of pytest lookup",
    text="Every shadowing layout up to depth 2 (quick) / 3 (thorough) — 7 conftest provider kinds per ancestor level, 0-2 definitions in the using file, all 32 subsets of 5 distractors — restricted to at most 4 / 5 files defining the name, with ALL permutations of their analysis order; in each database every usage site (test parameter, fixture parameter, usefixtures on function and class, pytestmark, indirect parametrize) is queried at every column from one before to one after the token and compared with the PytestLookup reference model; the in-process textDocument/definition handler is compared with the library answer. Exhaustive within these bounds, nothing sampled.",
    note="Trusted: the reference model in harness/src/ws.rs, the renderer, virtual paths under /nonexistent (canonicalize fails identically). Not covered: layouts deeper than 3 levels, more than 5 same-named definers, two providers of the name in one conftest.", ref="4/C01"),
+
+ "C02": dict(engine="E3", technique="bounded-exhaustive enumeration of override chains x registration orders x every cursor column of def fx(fx) lines, on the real resolver and in-process handlers, against the reference model",
+   text="Every override chain = ordered subset (length 1..3 quick / 1..5 thorough) of the 6 visibility positions [same file, conftest per level nearest→root (depth 3), workspace plugin, third-party], each conftest link own or star-imported, each same-file/conftest link requesting its own name or not, same-file link above or below its users, ALL permutations of the analysis order of the defining files; on every `def fx(fx):` line every column is queried for go-to-definition, references and prepareCallHierarchy and compared with the reference model (parameter → next link outward, name → this link, elsewhere → nothing); every usage site × column as in C01.",
+   note="Trusted: reference model (ws.rs). Plugin/third-party links never request fx themselves; references from a self-named parameter are judged only when an outer link exists; multi-line signatures are outside the quantifier.", ref="4/C02"),
+ "C04": dict(engine="E3+E2+E5", technique="model-free exhaustive cross-check of references vs go-to-definition on every index reached by the layout/chain enumerations and by explicit-state BFS of edit/close histories; CLI counts via the real binary",
+   text="In every database of the C01 layout and C02 chain enumerations (all registration orders within the definer bound) and in every state of the edit-history graph (stateright BFS, depth 3 quick / 4 thorough, didOpen/didChange/didClose actions) every (definition, usage) pair is checked: U ∈ references(D) ⇔ go-to-definition(U)=D at every column; no duplicates; unresolved usages unlisted; reverse index mirrors usages; code-lens count, incoming-calls count and the real binary's `fixtures list` count equal |references(D)|.",
+   note="No reference model. Usages inside documents whose current text is unparsable or closed (virtual paths) are not queried. CLI comparison on a fixed evenly spaced subset of project-only layouts materialised on tmpfs.", ref="4/C04"),
+ "C05": dict(engine="E3", technique="model-free exhaustive cross-feature comparison (7 in-process handlers) at every usage position of every enumerated database",
+   text="Every database of the layout enumeration (definitions carry distinct return types, docstrings, yield lines) and the chain enumeration, all registration orders within the definer bound; at every recorded usage position, with D = go-to-definition: hover, implementation, prepareCallHierarchy, outgoing calls vs parameter resolution, inlay hint, completion entry and the per-file available-fixtures entry must all denote D.",
+   note="Pure comparison between real handler/library calls; completion is asked in a usefixtures/pytestmark context of the same file so that no name is filtered.", ref="4/C05"),
+ "C06": dict(engine="E2", technique="explicit-state BFS (stateright) over edit histories with a real FixtureDatabase per state; oracle = freshly built server, evaluated on every transition",
+   text="All histories of full-text versions (6-7 versions per file incl. rename, shift, removal, syntax break, identical re-send) over 3 files (quick, depth 3) / 4 files incl. an imported helper (thorough, depth 4); after EVERY transition the live index equals, as multisets, a fresh server fed the last valid contents; the undeclared findings of the last-changed document equal fresh analysis; all answers equal the fresh server's for some feed order.",
+   note="State identity = per-file (current, last valid) versions + depth; merging is sound because the oracle is evaluated per transition before merging. The existential over feed orders deliberately excludes registration-order dependence (C08). Queries are not asked inside currently-invalid documents.", ref="4/C06"),
 }
 m = {
  "version": 1,
